@@ -18,7 +18,9 @@ RULE = ('One case = a random sequence of 30-60 clock operations (start, stop, sp
         'an accepted one must take effect exactly. Mode (ii): the scripted source also advances on every call - monotonicity, '
         'stillness while stopped and lower/upper bounds. Mode (iii): a SynchronizedClock must equal the followed interpreter\'s '
         'time after every step and between steps. Non-trivial = distinct sequences containing a speed change while running, '
-        'an assignment while running and a rejected assignment.')
+        'an assignment while running and a rejected assignment; start/stop/speed raising on a legal call is a violation; a SynchronizedClock is '
+        'also read while the followed interpreter delivers meta-events (it shows the time of the step under way from step started on); '
+        'never-started clocks take exact rationals and large magnitudes exactly.')
 ASSUMPTIONS = ['real-time values, speeds and assigned values are dyadic rationals, so the clock\'s float arithmetic is exact in mode (i)',
                'mode (ii): the value is only determined up to the real time spent inside an operation']
 REQUIRED_COUNTERS = ['synchronized_reads_during_a_step', 'readings_exact_non_float', 'chained_interpreter_steps', 'followed_clock_replaced', 'readings_exact', 'readings_bounded', 'rejected_assignments', 'accepted_assignments_running',
